@@ -74,3 +74,19 @@ META['C36'] = dict(
                 'SELECT CASE / WHERE / EXIT (no pygen handler: not in the transpilable subset)'),
     assumptions=COMMON_ASSUME + ['executions in which the original reads a variable before defining it are excluded',
                                  'numpy semantics as modelled in vlib/fsmt/pysem.py; every counterexample is confirmed by CPython+numpy'])
+
+META['C35'] = dict(
+    rule=('each Fortran template x size instance (quick: first size instance; thorough: all): the real FortranCTransformation and '
+          'FortranISOCWrapperTransformation are run on the freshly parsed routine as in the repository tests; the ORIGINAL is '
+          'interpreted with Fortran semantics, the GENERATED kernel (own C parser over the emitted text) with C semantics (static '
+          'types with converting stores, truncating int division and %, usual arithmetic conversions, short-circuit logicals as int, '
+          'flat zero-based arrays whose bounds come from the Fortran shapes, by-pointer scalars) on the same symbolic inputs; z3 decides '
+          'whether any input makes an output differ or a subscript leave its array; a kernel that gcc rejects is a violation; sat '
+          'models are replayed END TO END: gfortran build of the original vs gfortran build of the generated ISO-C wrapper calling the '
+          'gcc-compiled kernel (ASan/UBSan), relative tolerance 1e-6.'),
+    functions=['FortranCTransformation.transform_subroutine', 'cgen / CCodegen / CCodeMapper', 'FortranISOCWrapperTransformation (replay)',
+               'shift_to_zero_indexing', 'flatten_arrays', 'resolve_vector_notation (as used by the transformation)', 'replace_intrinsics'],
+    bounds=dict(COMMON_BOUNDS, outside='derived-type arguments and header modules, cpp / cuda language variants, inlined kernels and '
+                'global variables, int overflow, float rounding (doubles are exact reals), the wrapper is exercised by the replay only'),
+    assumptions=COMMON_ASSUME + ['executions in which the original reads a variable before defining it are excluded',
+                                 'C semantics as modelled in vlib/fsmt/csem.py; every counterexample is confirmed by gcc + gfortran'])
